@@ -35,6 +35,7 @@ import (
 	"go/ast"
 	"go/token"
 	"go/types"
+	"os"
 	"sort"
 	"strings"
 
@@ -99,6 +100,9 @@ func (n *normaliser) render(file string, s, e int) (string, bool) {
 		b.Write(n.src[file][pos:st.s])
 		t, ok := st.text()
 		if !ok {
+			if os.Getenv("TABLELINT_DEBUG_NORMALISE") != "" {
+				fmt.Fprintf(os.Stderr, "normalise: cannot render the replacement of %s[%d:%d] %q\n", file, st.s, st.e, truncate(string(n.src[file][st.s:st.e]), 80))
+			}
 			return "", false
 		}
 		b.WriteString(t)
@@ -224,6 +228,9 @@ func normalise(pkgs []*packages.Package, overlay map[string][]byte, readFile fun
 						}
 						sts := n.site(h, call, fn, parent)
 						if sts == nil {
+							if os.Getenv("TABLELINT_DEBUG_NORMALISE") != "" {
+								fmt.Fprintf(os.Stderr, "normalise: %s: call site at %s not supported\n", name, n.fset.Position(call.Pos()))
+							}
 							ok = false
 							return true
 						}
@@ -233,6 +240,9 @@ func normalise(pkgs []*packages.Package, overlay map[string][]byte, readFile fun
 				}
 			}
 			if !ok || len(sites) == 0 {
+				if os.Getenv("TABLELINT_DEBUG_NORMALISE") != "" {
+					fmt.Fprintf(os.Stderr, "normalise: %s left: inlinable=%v ok=%v sites=%d\n", name, helperInlinable(h.decl), ok, len(sites))
+				}
 				left = append(left, name)
 				continue
 			}
@@ -620,7 +630,56 @@ func (n *normaliser) siteRaw(h *nHelper, call *ast.CallExpr, cf string, parent m
 		var lit *ast.FuncLit
 		var litVar *ast.Ident
 		isNil := false
+		selText := ""
 		switch a := arg.(type) {
+		case *ast.SelectorExpr:
+			// a method value / package function x.y.M over plain identifiers: the calls of the parameter become calls of it
+			var root *ast.Ident
+			for e := ast.Expr(a); ; {
+				if se, isSel := e.(*ast.SelectorExpr); isSel {
+					e = se.X
+					continue
+				}
+				root, _ = e.(*ast.Ident)
+				break
+			}
+			if root == nil {
+				return false
+			}
+			if sel := pk.TypesInfo.Selections[a]; sel != nil && sel.Kind() != types.MethodVal {
+				return false // a field holding a function: it may be reassigned between the calls
+			}
+			if o := pk.TypesInfo.Uses[root]; o != nil && o.Parent() != nil && o.Parent() != pk.Types.Scope() && o.Parent() != types.Universe {
+				if declared[root.Name] {
+					return false
+				}
+				if paramNames[root.Name] {
+					if aid, isA := paramArg[root.Name].(*ast.Ident); !isA || aid.Name != root.Name {
+						return false
+					}
+				}
+				if h.decl.Recv != nil && len(h.decl.Recv.List[0].Names) == 1 && h.decl.Recv.List[0].Names[0].Name == root.Name {
+					if sel, isSel := call.Fun.(*ast.SelectorExpr); !isSel || !sameName(root.Name, sel.X) {
+						return false
+					}
+				}
+			}
+			// the fields on the way to the method are not written by the helper
+			written := false
+			ast.Inspect(h.decl.Body, func(nd ast.Node) bool {
+				if as, isAs := nd.(*ast.AssignStmt); isAs {
+					for _, l := range as.Lhs {
+						if _, isSel := l.(*ast.SelectorExpr); isSel {
+							written = true
+						}
+					}
+				}
+				return true
+			})
+			if written {
+				return false
+			}
+			selText = n.srcOf(cf, a.Pos(), a.End())
 		case *ast.FuncLit:
 			lit = a
 		case *ast.Ident:
@@ -707,6 +766,15 @@ func (n *normaliser) siteRaw(h *nHelper, call *ast.CallExpr, cf string, parent m
 		})
 		if !okUses {
 			return false
+		}
+		if selText != "" {
+			facts[obj] = false
+			for _, cu := range callUses {
+				id := cu.Fun.(*ast.Ident)
+				t := selText
+				substs = append(substs, &inlineSite{file: file, s: n.off(id.Pos()), e: n.off(id.End()), text: func() (string, bool) { return t, true }})
+			}
+			return true
 		}
 		if isNil {
 			facts[obj] = true
@@ -923,6 +991,16 @@ func (n *normaliser) siteRaw(h *nHelper, call *ast.CallExpr, cf string, parent m
 	retAssign := func(ret *ast.ReturnStmt) (string, bool) {
 		if len(ret.Results) == 0 {
 			return "", true
+		}
+		if len(ret.Results) == 1 && len(resTypes) > 1 {
+			// "return f(x)" with f giving all the results
+			if _, isCall := ret.Results[0].(*ast.CallExpr); isCall {
+				t, ok := n.render(file, n.off(ret.Results[0].Pos()), n.off(ret.Results[0].End()))
+				if !ok {
+					return "", false
+				}
+				return strings.Join(resNames, ", ") + " = " + t + "\n", true
+			}
 		}
 		if len(ret.Results) != len(resTypes) {
 			return "", false
@@ -1624,4 +1702,11 @@ func (n *normaliser) exprBeta(pk *packages.Package, lit *ast.FuncLit, call *ast.
 		t, ok := n.render(cf, n.off(e.Pos()), n.off(e.End()))
 		return "(" + t + ")", ok
 	}}
+}
+
+func truncate(s string, n int) string {
+	if len(s) > n {
+		return s[:n] + "…"
+	}
+	return s
 }
